@@ -4,6 +4,7 @@
   sequence (any length, any repetition) and every class table.
 -/
 import Djc.Model.Collect
+import Djc.Proofs.Tree
 namespace Djc.Props.C04
 open Djc.Collect
 
@@ -226,5 +227,23 @@ theorem not_marker_roundtrip_unicode :
   have := h "Ünï_a1b2c3".toList "q00001".toList (by decide)
   revert this
   decide
+
+/-! ### placeholder elements do not survive -/
+
+/-- **No placeholder element survives `component_post_render`, at any nesting depth.**  A component tag no component
+encloses, over any library of the tree fragment (`Djc.Proofs.Tree.GoodLib`): the tokens the render returns contain no
+`<template djc-render-id>` placeholder — every one of them was replaced by its instance's output before the loop
+ended. -/
+theorem no_placeholder_survives_component_trees (env : Djc.Render.Env) (hlib : Djc.Proofs.Tree.GoodLib env) (fuel : Nat)
+    (name : Djc.Tpl.Str) (kwargs : List (Djc.Tpl.Str × Djc.Tpl.Expr)) (only dyn : Bool) (ctx : Djc.Tpl.Ctx)
+    (w w' : Djc.Render.World) (toks : List Djc.Tpl.Tok)
+    (hd : Djc.Render.isDynName name = false) (hc : Djc.Proofs.Plain.ctxFree ctx = true) (hw : Djc.Proofs.Tree.WInv w)
+    (hext : Djc.Render.isExtracting ctx = false)
+    (hpar : Djc.Proofs.Tree.parentOf (if only || env.isolated then Djc.Render.isolatedCopy ctx else ctx) = none)
+    (h : (Djc.Render.renderCompTag env fuel name kwargs only dyn [] ctx).run.run w = (.ok toks, w')) :
+    Djc.Proofs.Tree.holeIds toks = [] :=
+  (Djc.Proofs.Tree.tree_root_tag env hlib fuel name kwargs only dyn ctx w w' toks hd hc hw hext hpar h).2
+
+example : Djc.Proofs.Tree.exSummary false = true := by decide +kernel
 
 end Djc.Props.C04
